@@ -21,7 +21,8 @@ RULE = ("(1) Hypothesis stateful machine over the public ModelState/ClusterParam
         "at every phase boundary of traced end-to-end runs, where the listener keeps the live objects and re-compares them with "
         "their snapshots at the end of the run. Non-trivial (machine) = a history with a copy followed by a mutation of the copy "
         "or of the source; (traced) = >= 2 rounds; distinct by SHA-1 of the recorded history / case."
-        ' States may hold a read-only view of a live buffer; labellings of another length (shorter, longer, empty, same leading labels) are assigned to throw-away copies.')
+        ' States may hold a read-only view of a live buffer; labellings of another length (shorter, longer, empty, same leading labels) are assigned to throw-away copies.'
+        ' Mutations may break exact symmetry of a matrix; deep copies are also taken of states whose scalar hyper-parameters are 0-d arrays.')
 ASSUMPTIONS = ["in the operation machine the log-determinant is treated like inverse_covariance (a scoring value the labelling phase refreshes on its input); in traced runs it is compared",
                "in-place mutation is applied only to states that exclusively own their arrays (deep copies, or fresh-cluster copies nobody has derived a shallow copy from)",
                "inverse_covariance is a scoring alias that the labelling phase refreshes on its input before use; it is not part of 'fitted statistics'",
@@ -108,6 +109,7 @@ class Driver:
         self.data = rng.normal(size=(T, nw)) + rng.integers(0, 3, size=(T, 1)) * 2.0
         lam = np.full((nw, nw), 0.11) if lam_matrix else 0.11
         beta = np.full(T, 1.5) if beta_vector else 1.5
+
         if beta_vector:
             # free transitions (exact zeros), among them at both ends of the chain; the pattern follows from the case seed
             for pos, bit in ((0, 1), (1, 2), (T - 2, 4), (T - 1, 8), (T // 2, 16), (T // 2 + 1, 16)):
@@ -193,6 +195,21 @@ class Driver:
         elif kind == "deep_copy":
             cp = s.deep_copy()
             check_deep_copy(s, cp)
+            if op.get("i", 0) % 2 == 0:
+                # the same for a state whose scalar hyper-parameters are held as 0-d arrays (mutable like any array, ndim 0 like
+                # a scalar); a throw-away state: the phases are never run on it
+                import dataclasses
+                s0 = s.shallow_copy()
+                a0 = s.arguments.deep_copy()
+                for name in ("sparsity_weight", "label_switching_cost"):
+                    if not isinstance(getattr(a0, name), np.ndarray):
+                        try:
+                            setattr(a0, name, np.array(float(getattr(a0, name))))
+                        except dataclasses.FrozenInstanceError:
+                            a0 = dataclasses.replace(a0, **{name: np.array(float(getattr(a0, name)))})
+                s0.arguments = a0
+                check_deep_copy(s0, s0.deep_copy())
+                self.t.cls("deep_copy_with_0d_array_hyper_parameters")
             self._add(cp, "deep")
             self.copied = True
             self._check_all("deep copy", target=i, new_index=len(self.states) - 1)
@@ -205,6 +222,8 @@ class Driver:
                     v = getattr(c, f)
                     if isinstance(v, np.ndarray) and v.dtype.kind == "f" and v.size and v.flags.writeable:
                         v += 1.0
+                        if v.ndim == 2 and v.shape[0] >= 2 and (op.get("i", 0) & 1):
+                            v[0, 1] += 2.0 ** -20          # no longer bit-exactly symmetric (a restored or hand-built state)
             for name in ("sparsity_weight", "label_switching_cost"):
                 v = getattr(s.arguments, name)
                 if isinstance(v, np.ndarray) and self.owned[i] == "deep" and self._owns_arguments(i):
